@@ -198,11 +198,22 @@ def check_iterative(case):
     from vopy.confidence_region import RectangularConfidenceRegion
 
     m = case["m"]
-    R = RectangularConfidenceRegion(m, intersect_iteratively=True)
-    lo, up = R.lower.copy(), R.upper.copy()
-    labels = [f"m={m}"]
+    n = int(case.get("n_regions", 1))
+    if case.get("shared_prior"):
+        # several regions constructed from one prior box (the adaptive design space hands a parent's bound arrays to all of
+        # its children in the same way): an update of one region must not move the others
+        lo0, hi0 = np.full(m, -float(case["shared_prior"])), np.full(m, float(case["shared_prior"]))
+        regs = [RectangularConfidenceRegion(m, lo0, hi0, True) for _ in range(n)]
+    else:
+        regs = [RectangularConfidenceRegion(m, intersect_iteratively=True) for _ in range(n)]
+    state = [(r.lower.copy(), r.upper.copy()) for r in regs]
+    labels = [f"m={m}"] + (["regions-share-prior-box"] if case.get("shared_prior") and n > 1 else [])
     nt = False
-    for mean, std, s in case["updates"]:
+    for upd in case["updates"]:
+        mean, std, s = upd[0], upd[1], upd[2]
+        k = (upd[3] % n) if len(upd) > 3 else 0
+        R = regs[k]
+        lo, up = state[k]
         mean, std = np.array(mean, float), np.array(std, float)
         cov = np.diag(std**2)
         if case.get("full_cov"):
@@ -235,7 +246,11 @@ def check_iterative(case):
             if not (close(got, inter) or close(got, new)):
                 return Result.violation("C14:iter:touching-neither", "", labels)
             labels.append("touching")
-        lo, up = R.lower.copy(), R.upper.copy()
+        state[k] = (R.lower.copy(), R.upper.copy())
+        for j in range(n):
+            if j != k and not (np.array_equal(regs[j].lower, state[j][0]) and np.array_equal(regs[j].upper, state[j][1])):
+                return Result.violation("C14:iter:other-region-changed", f"update of region {k} moved region {j}: was [{state[j][0].tolist()},"
+                                        f"{state[j][1].tolist()}] now [{regs[j].lower.tolist()},{regs[j].upper.tolist()}]", labels)
     return Result.ok(sorted(set(labels)), nt)
 
 
@@ -308,13 +323,14 @@ def st_iter(draw):
             c = [x + draw(st.sampled_from([-1, 1])) * draw(st.floats(3, 10)) for x in c]
         std = [draw(gen.st_logfloat(0.01, 1.0)) for _ in range(m)]
         s = draw(st.one_of(gen.st_logfloat(0.1, 5.0), st.lists(gen.st_logfloat(0.1, 5.0), min_size=m, max_size=m)))
-        ups.append([list(c), std, s])
-    return {"m": m, "updates": ups, "full_cov": draw(st.booleans()) and m > 1}
+        ups.append([list(c), std, s, draw(st.integers(0, 5))])
+    return {"m": m, "updates": ups, "full_cov": draw(st.booleans()) and m > 1, "n_regions": draw(st.sampled_from([1, 1, 2, 3])),
+            "shared_prior": draw(st.sampled_from([None, None, 5.0, 50.0]))}
 
 
 COMPONENTS = [
     Component("update_history", check_update_history, strategy=st_update_case, quick=500, thorough=15000,
               rule="1..5 updates; N=1..8 designs (fixed) or 1..3 refinements (adaptive); stub/empirical/independent/correlated/model-list"),
     Component("iterative_intersection", check_iterative, strategy=st_iter, quick=1500, thorough=40000,
-              rule="1..6 region-level updates with intersect_iteratively=True: nearby, far and repeated centres"),
+              rule="1..6 region-level updates with intersect_iteratively=True over 1..3 regions (own default bounds or one shared prior box): nearby, far and repeated centres"),
 ]
